@@ -166,7 +166,7 @@ def check_fixed_point(ctx, spec, p, channel, C, otherdir):
                         break
                 if t is not None:
                     lu, _ = c01.descend(t, C0[".".join(keypath)], rest)
-                    if lu is not None and c01.union_ambiguous(*lu) in ("ambiguous", "undecided"):
+                    if lu is not None and c01.union_ambiguous(*lu, nullable=getattr(lu, "nullable", False)) in ("ambiguous", "undecided"):
                         ctx.count("ambiguous_union_not_judged")
                         return
                 cls = "+".join(c for c in c01.string_classes(C0) if not c.startswith("key:")) or "no-hostile-string"
